@@ -255,6 +255,12 @@ class Check(Property):
                         preds["ureg.check"] = True
                     except Exception as exc:  # noqa: BLE001
                         preds["ureg.check"] = False if type(exc).__name__ == "DimensionalityError" else repr(exc)
+                    # the decorator with the checked argument given by keyword, out of signature order, next to a defaulted one
+                    try:
+                        u.check(None, u.Unit(d).dimensionality, None)(lambda a, b, c=3: b)(b=q, a=u.Quantity(1, "second"))
+                        preds["ureg.check (keywords)"] = True
+                    except Exception as exc:  # noqa: BLE001
+                        preds["ureg.check (keywords)"] = False if type(exc).__name__ == "DimensionalityError" else repr(exc)
                     try:
                         q.to(ed if kw.get("case_sensitive", True) else u.Unit(d))
                         preds["Quantity.to"] = True
